@@ -14,19 +14,23 @@ import (
 // TestVerif_C44Header: very many tiny blobs and a large target pack size, so that the header entry limit and not
 // the pack size decides when a pack is full - in SaveBlob (HeaderFull) and in the merge at Flush.
 func TestVerif_C44Header(t *testing.T) {
-	res := kit.NewResult("one case = one upload session of n tiny blobs (n around 0.6 / 1.2 / 2.1 x pack.MaxHeaderEntries) through a real packerManager with two packers and a target pack size the bytes never reach; every queued pack is finalized; judged by Fn_PackMerge!RecOK (all blobs in exactly one queued pack, no pack above the header limit, Finalize succeeds); distinct by n")
+	res := kit.NewResult("one case = one upload session of n tiny blobs (n around 0.6 / 1.2 / 2.1 x pack.MaxHeaderEntries through two packers; n = limit-1, limit, limit+1, limit+7, 2*limit+1 through one packer) through a real packerManager and a target pack size the bytes never reach; every queued pack is finalized; judged by Fn_PackMerge!RecOK (all blobs in exactly one queued pack, no pack above the header limit, Finalize succeeds); distinct by n")
 	recs := kit.NewNDJSON("recs_header.ndjson")
 	defer recs.Close()
 	key := crypto.NewRandomKey()
 	limit := int(pack.MaxHeaderEntries)
-	ns := []int{limit * 6 / 10, limit * 12 / 10}
+	type sess struct{ n, packers int }
+	// two packers: the merge at flush decides; one packer: HeaderFull in SaveBlob decides (just below, at and
+	// above the limit)
+	ss := []sess{{limit * 6 / 10, defaultPackerCount}, {limit * 12 / 10, defaultPackerCount}, {limit - 1, 1}, {limit, 1}, {limit + 1, 1}, {limit + 7, 1}}
 	if kit.Thorough() {
-		ns = append(ns, limit*21/10)
+		ss = append(ss, sess{limit * 21 / 10, defaultPackerCount}, sess{2*limit + 1, 1})
 	}
-	for _, n := range ns {
+	for _, se := range ss {
+		n := se.n
 		counts := []int{}
 		final := []bool{}
-		pm := newPackerManager(key, restic.DataBlob, 1<<30, defaultPackerCount, func(ctx context.Context, tpe restic.BlobType, p *packer) error {
+		pm := newPackerManager(key, restic.DataBlob, 1<<30, se.packers, func(ctx context.Context, tpe restic.BlobType, p *packer) error {
 			counts = append(counts, p.Count())
 			err := p.Finalize()
 			final = append(final, err == nil)
@@ -48,9 +52,9 @@ func TestVerif_C44Header(t *testing.T) {
 			accepted++
 		}
 		ferr := pm.Flush(ctx)
-		recs.Write(map[string]any{"n": accepted, "counts": counts, "final": final, "limit": limit, "save_err": serr != nil, "flush_err": ferr != nil})
-		res.Case("header/"+itoa(n), true)
-		res.Sample(map[string]any{"n": n, "packs": counts})
+		recs.Write(map[string]any{"n": accepted, "packers": se.packers, "counts": counts, "final": final, "limit": limit, "save_err": serr != nil, "flush_err": ferr != nil})
+		res.Case("header/"+itoa(n)+"/"+itoa(se.packers), true)
+		res.Sample(map[string]any{"n": n, "packers": se.packers, "packs": counts})
 	}
 	res.Save("result_header.json")
 }
